@@ -145,6 +145,19 @@ class Check(PropertyCheck):
             it = iter(e)
             next(it)
             fourth = list(e)
+            # a generator is its own iterator: bare next() calls on a freshly built one (no iter(), no for, no list()) yield the
+            # configured number of instances and then stop
+            nx = GeneralInstanceGenerator(**kw)
+            pulled = 0
+            try:
+                for _ in range(4 + 3):
+                    next(nx)
+                    pulled += 1
+            except StopIteration:
+                pass
+            if pulled != 4:
+                res.append(("iteration", f"bare next() calls on a fresh generator with iteration_limit=4 yielded {pulled} instances "
+                            f"{'and went on' if pulled > 4 else 'and stopped'}"))
             # direct generate() calls while a pass is running are extra instances, they do not use up the pass
             f2 = GeneralInstanceGenerator(**kw)
             got = 0
